@@ -510,7 +510,9 @@ TagOK(ev, tg) ==
       enclosing == { i \in Shapes(doc) : BoxIn(TagBox(tg), ShapeBox(doc.elems[i])) }
       anchor == << (tg.c * CW + 2) * MILLI, (tg.r * CH + 12) * MILLI >>
       shownAsText == \E i \in OfKind(doc, "text") : <<doc.elems[i].n[1], doc.elems[i].n[2]>> = anchor /\ doc.elems[i].s = TagText(tg) IN
-  /\ SubSeq(ev.rows[tg.r + 1], tg.c + 1, tg.c + Len(TagText(tg))) = TagText(tg)          \* the input has the tag there
+  /\ tg.r + 1 \in 1..Len(ev.rows)
+  /\ LET cr == CellRow(ev.rows[tg.r + 1]) IN                                              \* the input has the tag there
+     tg.c + Len(TagText(tg)) <= Len(cr) /\ SubSeq(cr, tg.c + 1, tg.c + Len(TagText(tg))) = TagText(tg)
   /\ \A i \in 1..Len(tg.names) : IsIdent(tg.names[i])
   /\ IF tg.inside = 1
      THEN /\ enclosing # {}
